@@ -2,6 +2,7 @@
    operation.  Pure (`step`), so the same function is available to proofs. -/
 import GoSnaps.Model
 import GoSnaps.Clean
+import GoSnaps.Conc
 namespace GoSnaps
 
 def hexDigit (n : Nat) : Char := if n < 10 then Char.ofNat (48 + n) else Char.ofNat (87 + n)
@@ -181,6 +182,26 @@ def step (s : DState) (line : String) : DState × Option String :=
       ({ s with w := w }, some (outStr "clean" o))
     | _, _ => bad s line
   | ["skipline"] => (s, some "skipline")
+  | ["conc", initS, progsS, schedS] =>
+    -- the abstract concurrent model run under the lock discipline read from the source
+    let nat2 := fun (x : String) => (x.splitOn ":").mapM (·.toNat?)
+    let initP := if initS = "-" then some [] else (initS.splitOn ",").mapM (fun e =>
+      match nat2 e with | some [a, b] => some (a, b) | _ => none)
+    let progsP := (progsS.splitOn ";").mapM (fun th =>
+      if th = "-" then some [] else (th.splitOn ",").mapM (fun c =>
+        match nat2 c with
+        | some [sl, v, cc, cu] => some ({ slot := sl, val := v, canCreate := cc = 1, canUpdate := cu = 1 } : Conc.Call Nat Nat)
+        | _ => none))
+    let schedP := if schedS = "-" then some [] else (schedS.splitOn ",").mapM (·.toNat?)
+    match initP, progsP, schedP with
+    | some f0, some progs, some sch =>
+      let L := Conc.pinnedLocks
+      let r := Conc.runSchedule L.add L.upd L.read f0 progs sch
+      let fileS := ",".intercalate (r.1.map fun (a, b) => s!"{a}:{b}")
+      let oc := fun (o : Conc.Outcome) => match o with | .passed => "p" | .added => "a" | .updated => "u" | .failed => "f"
+      let outsS := ";".intercalate (r.2.map fun os => String.join (os.map oc))
+      (s, some s!"conc file={fileS} outs={outsS}")
+    | _, _, _ => bad s line
   | ["path", c, sa, name] =>
     match c.toNat?.bind (lookupCfg s), unhex name with
     | some cfg, some nm =>
